@@ -234,12 +234,77 @@ def shard(args):
     return stats, viol[:40], None
 
 
+# ---- the supported maximum: definitions around the limit, with bit fields sharing bytes --------------------------------
+WHOLE = [('UCH', 1), ('D2C', 2), ('UIN', 2), ('ULG', 4), ('BDA', 4), ('BTI', 3), ('D1C', 1), ('HEX:5', 5), ('STR:7', 7), ('STR:3', 3), ('HEX:2', 2)]
+
+
+def limit_shard(args):
+    exe, seed, n = args
+    rng = random.Random(seed)
+    stats = {'evaluations': 0, 'nontrivial': 0, 'limit_definitions': 0, 'limit_rejected': 0, 'limit_accepted': 0, 'samples': []}
+    viol, lines, plan = [], [], []
+    for k in range(n):
+        wr = rng.random() < 0.5
+        idlen = rng.randrange(0, 5)
+        target = rng.choice([22, 23, 24, 24, 25, 25, 26, 27])       # bytes that count against the limit (ID + master data / slave data)
+        need = target - (idlen if wr else 0)
+        fields, total, fno = [], 0, 0
+        lastbits = False
+        while total < need:
+            rest = need - total
+            if rng.random() < 0.4 and not lastbits:      # (two adjacent groups could legitimately share a byte: not generated)
+                lastbits = True
+                # a group of bit fields with ascending, non-overlapping bits: one byte
+                bit, grp = 0, []
+                for _ in range(rng.randrange(1, 5)):
+                    if bit > 7:
+                        break
+                    nb = rng.randrange(1, min(3, 8 - bit) + 1)
+                    first = bit + (rng.randrange(0, 2) if bit + nb < 8 else 0)
+                    grp.append('BI%d:%d' % (first, nb) if not (first == 7) else 'BI7')
+                    bit = first + nb
+                for g in grp:
+                    fields.append('f%d,,%s,,,' % (fno, g)); fno += 1
+                total += 1
+            else:
+                lastbits = False
+                cand = [w for w in WHOLE if w[1] <= rest]
+                typ, nbytes = rng.choice(cand)
+                fields.append('f%d,,%s,,,' % (fno, typ)); fno += 1
+                total += nbytes
+        ident = ''.join('%02x' % rng.randrange(256) for _ in range(idlen))
+        line = '%s,lc,l%d,,,08,b509,%s,%s' % ('w' if wr else 'r', k, ident, ','.join(fields))
+        mp = 'lim%d' % k
+        lines += ['NEW\t%s\t0' % mp, 'LOAD\t%s\t%s' % (mp, esc('#\n' + line + '\n')), 'DEL\t' + mp]
+        plan += [None, (line, target, wr), None]
+    rc, out, err = run_server(exe, lines)
+    if rc != 0 or len(out) != len(plan):
+        return stats, viol, (rc if rc else -1, 'msg_server output lines %d != expected %d\n' % (len(out), len(plan)) + err[-4000:])
+    for pl, f in zip(plan, out):
+        if pl is None:
+            continue
+        line, target, wr = pl
+        stats['evaluations'] += 1; stats['limit_definitions'] += 1; stats['nontrivial'] += 1 if 'BI' in line else 0
+        ok = f[1] == '0' and f[2] == '1'
+        stats['limit_accepted' if ok else 'limit_rejected'] += 1
+        if ok and target > 24:
+            viol.append(('oversize-definition-accepted', "'%s' needs %d bytes (%s) but was loaded" % (line, target, 'ID + master data' if wr else 'slave data')))
+        elif not ok and target <= 24:
+            viol.append(('definition-within-limit-rejected', "'%s' needs %d bytes but was rejected: %s %s" % (line, target, f[1], unesc(f[3]) if len(f) > 3 else '')))
+        elif len(stats['samples']) < 1 and not ok:
+            stats['samples'].append("'%s' (%d bytes) rejected with %s" % (line, target, f[1]))
+    return stats, viol[:30], None
+
+
 def main():
     c = Check('C09')
     exe = build_msg_server()
     nsh = 32
     ndefs = 3000 if c.thorough else 50
     tot = pool_run(c, shard, [(exe, c.seed * 1000 + i, ndefs) for i in range(nsh)])
+    tot2 = pool_run(c, limit_shard, [(exe, c.seed * 1000 + 700 + i, 2000 if c.thorough else 120) for i in range(8)])
+    for k in ('evaluations', 'nontrivial'):
+        tot[k] = tot.get(k, 0) + tot2.get(k, 0)
     c.coverage.update({
         'evaluations': int(tot.get('evaluations', 0)),
         'distinct_nontrivial': int(tot.get('nontrivial', 0)),
@@ -247,10 +312,12 @@ def main():
                 'master/broadcast, and chains of 2..4 parts (explicit or implicit lengths, r/w, HEX payload); per definition: prepareMaster '
                 '(every part), header/NN/ID check, find() on the produced telegram in a fresh map, prepareSlave, storeLastData, decodeLastData; '
                 'chains stored in 3 arrival orders on the active (by index) and passive (by telegram) path. non-trivial = plain definition '
-                'with >=2 fields, or any chain',
+                'with >=2 fields, or any chain; plus definitions built to need 22..27 bytes (whole-byte fields and groups of bit fields sharing a byte, '
+                'ID 0..4 bytes, r/w): loaded iff the need is <= 24',
         'plain_definitions': int(tot.get('plain_defs', 0)), 'chained_definitions': int(tot.get('chain_defs', 0)),
         'chain_arrival_orders': int(tot.get('arrival_orders', 0)), 'oversize_definitions_rejected': int(tot.get('oversize_rejected', 0)),
         'other_definitions_rejected_by_loader': int(tot.get('loader_rejected', 0)),
+        'limit_definitions': int(tot2.get('limit_definitions', 0)), 'limit_accepted': int(tot2.get('limit_accepted', 0)), 'limit_rejected': int(tot2.get('limit_rejected', 0)),
         'samples': tot.get('samples', []),
     })
     c.assumptions += ['supported maximum: ID (without PBSB) + master data <= 24 bytes and slave data <= 24 bytes (MAX_POS)',
